@@ -25,6 +25,10 @@ MANIFEST = {
                   "C17_history_roundtrip (the final value of any history, if canonical: decode(payload) = itself, |payload| = Size(), "
                   "ExtractSEIData(WriteSEIMessages [m]) = [(type, payload)]), C17_canonical_history (canonical-preserving edits: every "
                   "intermediate value canonical, re-decodes are no-ops), C17_typed_in_nalu (all four typed messages between arbitrary messages). "
+                  "C17_size_any_value: Size() = len(Payload()) (and executable payload = bit-list form) for EVERY time code / AVC picture timing / mdcv / cll "
+                  "value, canonical or not (any clock count, pict_struct, field values wider than their code, junk in absent fields); only hypothesis: "
+                  "the widths handed to FixedSliceWriter.Write (time-offset lengths, HRD lengths + 1) are <= 56, evaluated on every typed case of the "
+                  "run (typed_values_by_theorem_domain in the evidence). "
                   "The written NAL unit read back through the codec entry points (coq/c17/C17NaluModel.v: sei.DecodeSEIMessage, avc.ParseSEINalu, "
                   "hevc.ParseSEINalu + fillHEVCPicTimingParams): C17_nalu_written (every non-empty written list, every valid header, every SPS "
                   "parameter set: the wrappers run their decoders on exactly the written (type, payload) pairs in order and report no trailing-bits "
@@ -49,7 +53,10 @@ MANIFEST = {
                   "correspondence case. What remains trusted there is the C13 transcription of bits.Reader.Read itself (C13's correspondence). "
                   "C17_decoded_is_canonical: every value a typed decoder returns is canonical, so decode -> canonical-preserving edits stays in "
                   "the theorems' domain (C17_decoded_history_roundtrip). Out-of-domain values (more than 3 clocks, pict_struct > 8, clock/external time-offset "
-                  "length mismatch, fields wider than their code) are not canonical: modelled and compared, not covered by the theorems. "
+                  "length mismatch, fields wider than their code) are not canonical: modelled and compared; of the theorems only C17_size_any_value (Size() = len(Payload())) "
+                  "covers them (decoders cannot return them: C17_decoded_is_canonical). Writer widths above 56 bits (byte fields 57..255) are "
+                  "outside every theorem and not generated. ParseSEINalu: the SPS is modelled as the few VUI/HRD fields the wrappers read; "
+                  "C17_nalu_roundtrip asks of a pass-through message only that some pass-through decoder returned it. "
                   "Crash safety of the decoders on hostile payloads belongs to C16.",
 }
 
@@ -95,6 +102,12 @@ def run(ctx):
     lines = cases.splitlines()
     res = common.run_model(model, cases)
     mism = [l for l in res if not l.startswith("OK ")]
+    # which theorems speak about the typed values of this run (hypotheses evaluated by the model driver on the real inputs)
+    dom = {}
+    for l, c in zip(res, lines):
+        if l.startswith("OK ") and " dom=" in l:
+            k = c.split("\t", 1)[0] + ":" + l.rsplit("dom=", 1)[1]
+            dom[k] = dom.get(k, 0) + 1
     if len(res) != len(lines):
         raise common.CheckError("model driver answered %d lines for %d cases" % (len(res), len(lines)))
     distinct = len(set(l.split("\t", 2)[2] for l in lines if "\t" in l))
@@ -127,6 +140,9 @@ def run(ctx):
         "cases": len(lines), "mismatches": len(mism), "distinct_cases": distinct,
         "exhaustive_payload_len": exh, "kinds_by_outcome": kinds, "history_step_kinds_seen": sorted(hist_steps),
         "nalu_messages_returned_by_kind": nalu_msgs,
+        "typed_values_by_theorem_domain": dom,
+        "typed_values_by_theorem_domain_note": "canon = canonical value (hypothesis of all typed theorems), widths = NOT canonical but writer widths "
+                                               "<= 56 (hypothesis of C17_size_any_value: Size() = len(Payload()) also compared there), out = neither",
         "input_distribution": "L: message lists written by Go and by the model (bytes compared), then extracted by both: every "
                               "single message with type in {0,3,128,255} and payload over {00,01,03,80,ff} up to the exhaustive length; "
                               "all pairs over boundary types with payloads up to 1 byte; random lists of 0-6 messages, types from "
@@ -201,7 +217,7 @@ def run(ctx):
     ctx.cov["rule"] = ("corr: see input_distribution (exhaustive payload length %d, %d random cases); distinct = distinct case lines; "
                        "search: extract(write msgs) = msgs through sei.ExtractSEIData, avc.ParseSEINalu and hevc.ParseSEINalu, written "
                        "bytes = independent naive emulation prevention of the plain serialisation, no forbidden triple; typed: decode(Payload(m)) "
-                       "deep-equals m and Size() = len(Payload()) on canonical values, typed messages through WriteSEIMessages + ParseSEINalu, "
+                       "deep-equals m on canonical values, Size() = len(Payload()) on canonical AND on generated non-canonical values, typed messages through WriteSEIMessages + ParseSEINalu, "
                        "pass-through payload unchanged; histories (canonical edits only): for the final value m of a generated history "
                        "Size() = len(Payload()), a struct literal with m's exported fields has the same Payload()/Size() (payload-depends-on-history), "
                        "decode(Payload()) has the same exported fields AND the same Payload() bytes, Payload() does not change the fields, "
